@@ -300,6 +300,16 @@ def main(run, shard=(0, 1)) -> None:
         ('tail\\', [('tail\\', 'tail\\')]),
         (None, [('[flag]', [('[x]', '[y]')]), ('//c', '/*c*/')]),
     ]
+    # unusual sizes: thousands of siblings, a very long name and value, deep nesting
+    deep: Any = ('leaf', 'v')
+    for d in range(150):
+        deep = (f'lvl{d}', [deep, (f'sib{d}', str(d))])
+    fixed += [
+        (None, [(f'k{n % 7}', f'v{n}') for n in range(4000)]),
+        ('wide', [(f'Blk{n}', [('x', 'y')] if n % 3 else []) for n in range(1500)]),
+        (None, [('n' * 30000 + '"\\', 'v' * 100000 + '\n"{'), ('after', 'long')]),
+        deep,
+    ]
     for j, tree in enumerate(fixed):
         if mine(j, shard):
             check_tree(run, sub_rng(run.seed, 'fixed', j), tree, 'fixed', f'fixed{j}')
